@@ -251,7 +251,19 @@ static void build_catalogue (void)
 	 * even-N1 decoder with longer symbols (its self-injected null symbol) */
 	s = new_script ("ldpc-encoder-evenN1-extra-entry", 3, OF_ENCODER, 1, 5, 6, 0, 4, 1, 0); add (s, S_CREATE, 0); add (s, S_SET, 0); add (s, S_BUILDALL, 0); add (s, S_CTRL, 0); add (s, S_RELEASE, 0);
 	s = new_script ("ldpc-encoder-evenN1-null-last", 3, OF_ENCODER, 4, 4, 6, 0, 4, 1, 0); add (s, S_CREATE, 0); add (s, S_SET, 0); add (s, S_BUILDALL, 0); add (s, S_CTRL, 0); add (s, S_RELEASE, 0);
-	s = new_script ("ldpc-decoder-evenN1-dws-long-symbols", 3, OF_DECODER, 5, 4, 40, 0, 4, 2, 0); add (s, S_CREATE, 0); add (s, S_SET, 0); add (s, S_DWS, 6); add (s, S_DWS, 0); add (s, S_DWS, 7); add (s, S_QUERY, 0); add (s, S_RELEASE, 0);
+	{	/* a source symbol rebuilt through the LAST equation, i.e. with the null symbol the decoder injects for itself:
+		 * the same code with 4-byte and with 40-byte symbols */
+		int k = 5, r = 4, N1 = 4, seed = 2, e, miss = -1, v;
+		bitmat *H = rfc5170_H (k, k + r, N1, (uint64_t) seed, NULL);
+		for (e = 0; e < k; e++) if (bm_get (H, r - 1, e)) miss = e;
+		bm_free (H);
+		for (v = 0; v < 2 && miss >= 0; v++) {
+			s = new_script (v ? "ldpc-decoder-evenN1-last-equation-long-symbols" : "ldpc-decoder-evenN1-last-equation", 3, OF_DECODER, k, r, v ? 40 : 4, 0, N1, seed, 0);
+			add (s, S_CREATE, 0); add (s, S_SET, 0);
+			for (e = 0; e < k; e++) if (e != miss) add (s, S_DWS, (uint64_t) e);
+			add (s, S_DWS, (uint64_t) (k + r - 2)); add (s, S_QUERY, 0); add (s, S_RELEASE, 0);
+		}
+	}
 	NCORE = NSCR;
 	{	/* systematic families (pairs only): for each Reed-Solomon codec, 4 shapes sharing k or n-k, as encoder, as decoder fed
 		 * the highest ESIs, and as one session that encodes and then decodes */
